@@ -921,6 +921,60 @@ let run_nodes (x : sexp) : string =
       ^ " cap=" ^ string_of_n (DeltaNodes.capacity ts)
   | _ -> failwith "nodes"
 
+(* ==== BEGIN C11 TypeLegal ======================================================
+   stream `legal`, payload (pos ty)
+     ty  ::= void | i8 | i16 | i32 | i64 | i128 | u8 | u16 | u32 | u64 | u128 | usize | char8 | bool
+           | (struct NAME) | (word NAME BYTES)
+           | (ptr ty) | (view ty) | (slice ty) | (endless ty) | (arraylike ty)
+           | (array LEN ty) | (named NAME LEN ty)
+     pos ::= var | sizeof | (const FL) | (param FL) | (ret FL) | (smember FL) | (wmember BYTES FL)
+     FL  ::= - | p | e | pe
+   stream `legal-pinned`: same payload, the model of the code before commit df9eac4
+   answer: "codes [c,..]" or "panic typer.rs:LINE"                                   *)
+module TL = TypeLegal
+let tl_prim = function
+  | "void" -> TL.KVoid | "i8" -> TL.KInt8 | "i16" -> TL.KInt16 | "i32" -> TL.KInt32 | "i64" -> TL.KInt64
+  | "i128" -> TL.KInt128 | "u8" -> TL.KUint8 | "u16" -> TL.KUint16 | "u32" -> TL.KUint32 | "u64" -> TL.KUint64
+  | "u128" -> TL.KUint128 | "usize" -> TL.KUsize | "char8" -> TL.KChar8 | "bool" -> TL.KBool
+  | s -> failwith ("legal: prim " ^ s)
+let rec tl_sty (x : sexp) : TL.sty =
+  match x with
+  | A k -> TL.SPrim (tl_prim k)
+  | L [A "struct"; A n] -> TL.SStruct (intern n)
+  | L [A "word"; A n; A b] -> TL.SWord (intern n, n_of_string b)
+  | L [A "ptr"; t] -> TL.SPtr (tl_sty t)
+  | L [A "view"; t] -> TL.SView (tl_sty t)
+  | L [A "slice"; t] -> TL.SSlice (tl_sty t)
+  | L [A "endless"; t] -> TL.SEndless (tl_sty t)
+  | L [A "arraylike"; t] -> TL.SArraylike (tl_sty t)
+  | L [A "array"; A len; t] -> TL.SArray (n_of_string len, tl_sty t)
+  | L [A "named"; A c; A len; t] -> TL.SArrayNamed (intern c, n_of_string len, tl_sty t)
+  | _ -> failwith "legal: type"
+let tl_flags = function
+  | "-" -> { TL.f_pub = false; TL.f_extern = false }
+  | "p" -> { TL.f_pub = true; TL.f_extern = false }
+  | "e" -> { TL.f_pub = false; TL.f_extern = true }
+  | "pe" -> { TL.f_pub = true; TL.f_extern = true }
+  | s -> failwith ("legal: flags " ^ s)
+let tl_pos (x : sexp) : TL.position =
+  match x with
+  | A "var" -> TL.PVariable
+  | A "sizeof" -> TL.PSizeOf
+  | L [A "const"; A fl] -> TL.PConstant (tl_flags fl)
+  | L [A "param"; A fl] -> TL.PParameter (tl_flags fl)
+  | L [A "ret"; A fl] -> TL.PReturn (tl_flags fl)
+  | L [A "smember"; A fl] -> TL.PStructMember (tl_flags fl)
+  | L [A "wmember"; A b; A fl] -> TL.PWordMember (n_of_string b, tl_flags fl)
+  | _ -> failwith "legal: position"
+let run_legal (pinned : bool) (x : sexp) : string =
+  match x with
+  | L [p; t] ->
+      (match (if pinned then TL.legal_outcome_pinned else TL.legal_outcome) (tl_pos p) (tl_sty t) with
+       | TL.OCodes cs -> "codes " ^ codes_to_string cs
+       | TL.OPanic l -> "panic typer.rs:" ^ string_of_n l)
+  | _ -> failwith "legal"
+(* ==== END C11 TypeLegal ======================================================== *)
+
 let dispatch (stream : string) (x : sexp) : string =
   match stream with
   | "labels" -> run_labels x
@@ -936,6 +990,8 @@ let dispatch (stream : string) (x : sexp) : string =
   | "resolve" -> run_resolve x
   | "mut" -> run_mut x
   | "nodes" -> run_nodes x
+  | "legal" -> run_legal false x
+  | "legal-pinned" -> run_legal true x
   | "cfg" -> run_cfg x
   | "lex-alpha" -> run_lex_alpha x
   | "lex-delta" -> run_lex_delta x
